@@ -287,6 +287,9 @@ def main(tier, replay=None):
     if drv is None:
         chk.broke("extracted model driver does not build", l1)
     himpl, l2 = vf.build_harness("c19_io.C")
+    for _ in range(3):      # the shared library cache is pruned by concurrent runs of other checks: rebuild and retry
+        if himpl is None and "libgivaro_verif.a" in l2 and "cannot find" in l2:
+            himpl, l2 = vf.build_harness("c19_io.C")
     if himpl is None:
         chk.broke("implementation harness does not compile against /repo", l2)
         return chk.finish()
@@ -329,6 +332,8 @@ def main(tier, replay=None):
             add("int.strrt", "int.strrt %d" % z, "int.write %d" % z, z=z)
     for i in range(260 * S):
         t = adversarial(rng)
+        if i < 10:
+            t = ["010", "0x1f", "-017 ", "00", "0b11", " 0012x", "0x", "-0", "+08", "0777/2"][i]
         old = rng.choice([0, 7, -3])
         add("int.read", "int.read.%s %d %s" % (rng.choice(["op", "zring"]), old, hx(t)), "int.read %d %s" % (old, hx(t)), old=old, text=t)
     for i in range(160 * S):
@@ -339,6 +344,8 @@ def main(tier, replay=None):
             if rng.chance(1, 3) and len(t) > 3:
                 k = rng.range(1, len(t) - 1)
                 t = t[:k] + rng.choice([" ", "\t", "+"]) + t[k:]
+        if i < 14:          # numerals another base would read differently
+            t = ["010", "0x1f", "0X1F", "0b11", "-017", "00", "0", "-0", "08", " 0012", "0x", "1e3", "0777", "-0x10"][i]
         if "\0" in t:
             continue
         add("int.cstr", "int.cstr %s" % hx(t), "int.cstr %s" % hx(t), text=t)
